@@ -69,11 +69,14 @@ MCSpec == MCInit /\ [][MCNext]_mcvars
 (* a wall-clock budget (seconds, environment variable MC_SECS) turns the search into a time-bounded breadth-first one that *)
 (* still ends with TLC's complete statistics; the engine reports such a run as time-bounded, never as exhaustive           *)
 MCSecs == IF "MC_SECS" \in DOMAIN IOEnv THEN atoi(IOEnv.MC_SECS) ELSE 0
+(* ... and a depth bound (MC_DEPTH) makes the explored part of the graph, and with it the reported numbers, the same on   *)
+(* every machine (the quick tier sets it so that the time budget is normally not reached)                                  *)
+MCDepth == IF "MC_DEPTH" \in DOMAIN IOEnv THEN atoi(IOEnv.MC_DEPTH) ELSE MaxDepth
 Bound ==
   /\ (MCSecs = 0 \/ TLCGet("duration") < MCSecs)
   /\ \A n \in Nodes : node[n].alive => (node[n].term <= MaxTerm /\ Len(node[n].log) <= MaxLog)
   /\ \A i, j \in Nodes : Len(chan[i][j]) <= MaxChan
-  /\ TLCGet("level") <= MaxDepth
+  /\ TLCGet("level") <= MaxDepth /\ TLCGet("level") <= MCDepth
 
 Sym == Permutations(Nodes)
 
